@@ -1045,6 +1045,19 @@ def part_cli(ctx):
              (big, "4DN"), (big, "4dn"), (big, "2000N"), (big, "1000B"), (big, "5000,4DN")]
     if not thorough:
         specs = specs[:3] + [specs[4], specs[6], specs[8], specs[9], specs[11], specs[13], specs[15]]
+    # maps with fewer than 256 bins in total: maxres < base bin size, the CLI warns "Map is already < 256 x 256" and every
+    # progression is empty -- but literal members of a spec (4DN = 1000,2000,5000N; plain integers) must still be produced
+    # when they are multiples of the base, and a start that is not a multiple of the base must be refused, never ignored
+    t1000 = {"sizes": [100000, 50000], "binsize": 1000}      # 150 bins, maxres 586
+    t500 = {"sizes": [60000, 40000], "binsize": 500}         # 200 bins, maxres 391
+    t250 = {"sizes": [30000, 20000], "binsize": 250}         # 200 bins, maxres 196
+    w1000 = {"sizes": [150000, 140000], "binsize": 1000}     # 290 bins, maxres 1133: just above 256 bins, for contrast
+    tiny = [(t1000, "4DN"), (t1000, "4dn"), (t1000, "1000,2000"), (t1000, "N"), (t1000, "B"), (t1000, None), (t1000, "2000,4DN"),
+            (t1000, "2000N"), (t1000, "5000B"), (t1000, "250N"), (t1000, "3000,500N"),
+            (t500, "4DN"), (t500, "250N"), (t500, "1000,2000"), (t500, "5000B,1500"), (t500, "500N"),
+            (t250, "4DN"), (t250, "250N"), (t250, "500,1000"), (t250, "2000,4DN"),
+            (w1000, "4DN"), (w1000, "1000N"), (w1000, "500N")]
+    specs += tiny if thorough else [tiny[i] for i in (0, 2, 3, 6, 7, 9, 11, 12, 13, 16, 17, 20)]
     cases = []
     for g, spec in specs:
         n = sum(-(-L // g["binsize"]) for L in g["sizes"])
